@@ -316,6 +316,11 @@ public:
 		return *this;
 	}
 
+	File& operator<<(char* x) // a non-const pointer or char buffer is a C string too (not a value for the generic operator)
+	{
+		return *this << (const char*)x;
+	}
+
 	File& operator<<(const String& x)
 	{
 		write(*x, x.length());
